@@ -22,6 +22,7 @@ EXPLANATION = (
     "(5) R-PAIR - registry store/delete paired with exactly one queue insertion/removal; (6) R-FWD - collector "
     "constructors forward priority/frequency/start/end and default to a priority below System's. Decides the queue "
     "discipline for all histories; does not decide what user code does to fields directly.")
+EXPLANATION += (' Registry guard: the store systems[s.id] = s is dominated by `s.id not in systems`; presence of a system is never decided by the truth value of the system object (R-NONE); iterating the registry instead of the queue is a violation; a search helper that returns the first hit followed by insert at that index is the scan idiom.')
 ASSUMPTIONS = [
     "G6: user code reaches framework state only through public methods; priorities are not changed after registration",
     "list.insert/append/remove semantics and list iteration order (language facts)",
